@@ -4,7 +4,10 @@ use crate::relation::diseq::DisequalityConstraint;
 use crate::state::constraint::Constraint;
 use crate::engine::Engine;
 use crate::state::User;
+#[cfg(not(terohuttunen_proto_vulcan_verif))]
 use std::collections::HashSet;
+#[cfg(terohuttunen_proto_vulcan_verif)]
+use crate::verif_sim::HashSet;
 use std::rc::Rc;
 
 #[derive(Derivative)]
